@@ -51,6 +51,12 @@ def build_sequence(rng, n, big=False, bad=0.0):
             else:
                 m = N.app_answer(seq, size=size)
             kinds.append(("APP", seq))
+            if not big and rng.random() < 0.25:
+                # what is inside an application message is the application's business: text AVPs whose octets are no UTF-8,
+                # empty values, AVPs nobody knows - the message is delivered as it came
+                # (dictionary AVPs with their dictionary flags: what happens to other flag bits on decode is C02's recorded finding)
+                code = rng.choice([1, 281, 269, 282, 99991])
+                m.avps.append(N.avp(code, rng.choice([b"caf\xe9", b"\xff\xfe", b"", b"\x80abc", b"alice@example"]), flags={1: 0x40, 281: 0x00, 269: 0x00, 282: 0x40}.get(code, rng.choice([0x40, 0x00]))))
         msgs.append(m)
         if kinds[-1][0] == "APP" and rng.random() < 0.06:
             # the peer sends the very same message again (a retransmission): it is a message of the sequence like any other
